@@ -293,9 +293,9 @@ fn as_int(v: &V, pattern_only: bool) -> Result<Option<(BigInt, Option<usize>)>, 
         V::Int { v, size } => Ok(Some((v.clone(), *size))),
         V::Str { s, enc } => {
             let bytes = encode(s, *enc)?;
-            if !pattern_only && bytes.first().map(|b| *b >= 0x80).unwrap_or(false) {
-                return Err(EvalErr::Unspecified("numeric value of a string whose first byte is >= 0x80"));
-            }
+            // the numeric value of a string is the unsigned number its encoded bytes spell (its size: 8 x bytes);
+            // a first byte >= 0x80 does not make it negative
+            let _ = pattern_only;
             Ok(Some((BigInt::from_bytes_be(Sign::Plus, &bytes), Some(bytes.len() * 8))))
         }
         _ => Ok(None),
